@@ -1,0 +1,14 @@
+//go:build verif
+
+package cache
+
+// VerifYield, when set by the verification harness, is called at the scheduling point between
+// the unlocked expiry test and the removal in CheckExpirations. It is a no-op otherwise and does
+// not exist without the "verif" build tag.
+var VerifYield func(site string)
+
+func verifYield(site string) {
+	if f := VerifYield; f != nil {
+		f(site)
+	}
+}
